@@ -372,16 +372,42 @@ class Ctx:
         for r in bad:
             k = r.get("key") or (key_of(records[r["i"]], r) if key_of else "unkeyed")
             groups.setdefault(k, []).append(r)
-        for k, rs in sorted(groups.items()):
-            first = rs[0]
+        unreproduced = []
+        for n, (k, rs) in enumerate(sorted(groups.items())):
+            if n >= 80 and self.violations:
+                # enough separately reproduced reports; the remaining groups are counted, not reproduced one by one
+                self.notes["further_disagreement_groups_not_reproduced_individually"] = len(groups) - n
+                break
+            # reproduction in a fresh process: the first members of the group, each up to repro_attempts times (a
+            # defect can be nondeterministic - map iteration order, scheduling - and still be a defect; what is
+            # reported is always a run of the real code that misbehaved in a process of its own)
+            first = None
+            for cand in rs[:3]:
+                rec = records[cand["i"]]
+                for _ in range(max(1, getattr(self, "repro_attempts", 2))):
+                    again = self.harness(cmd, [rec], args=args, race=race, timeout=timeout, env=env, pkg=pkg)
+                    again = [r for r in again if "i" in r]
+                    if again and not again[0].get("ok"):
+                        first = cand
+                        break
+                if first is not None:
+                    break
+            if first is None:
+                unreproduced.append((k, rs[0]))
+                continue
             rec = records[first["i"]]
-            again = self.harness(cmd, [rec], args=args, race=race, timeout=timeout, env=env, pkg=pkg)
-            again = [r for r in again if "i" in r]
-            if not again or again[0].get("ok"):
-                raise MachineryError("disagreement %s did not reproduce in a fresh process: %s" % (k, json.dumps(first)[:500]))
             vers = sorted(set(str(records[r["i"]].get("ver")) for r in rs if isinstance(records[r["i"]], dict) and "ver" in records[r["i"]]))
             what = first.get("what") or (what_of(rec, first) if what_of else json.dumps({x: first[x] for x in first if x not in ("i", "ok")})[:300])
             self.disagree(k, what, {"harness": cmd, "pkg": pkg, "args": args or [], "record": rec, "result": first, "count": len(rs), "versions": vers})
+        if unreproduced:
+            if len(unreproduced) == len(groups):
+                k, first = unreproduced[0]
+                raise MachineryError("disagreement %s did not reproduce in a fresh process: %s" % (k, json.dumps(first)[:500]))
+            # some groups reproduced (and are reported); the others are only noted
+            self.notes.setdefault("unreproduced_disagreements", [])
+            self.notes["unreproduced_disagreements"] += [k for k, _ in unreproduced][:50]
+            self.log("%d disagreement group(s) did not reproduce in a fresh process and are not reported: %s"
+                     % (len(unreproduced), ", ".join(k for k, _ in unreproduced[:5])))
         return body
 
     # -------------------------------------------------------------- verdicts
